@@ -28,7 +28,7 @@ from typing import TYPE_CHECKING, Any, cast
 from bumble import hci, link, ll, lmp
 from bumble import link as bumble_link
 from bumble.colors import color
-from bumble.core import PhysicalTransport
+from bumble.core import InvalidArgumentError, PhysicalTransport
 
 if TYPE_CHECKING:
     from bumble.transport.common import TransportSink
@@ -1343,7 +1343,15 @@ class Controller:
 
         # Say that the connection is pending
         self._send_hci_command_status(hci.HCI_COMMAND_STATUS_PENDING, command.op_code)
-        future = self.send_lmp_packet(command.bd_addr, lmp.LmpHostConnectionReq())
+        try:
+            future = self.send_lmp_packet(command.bd_addr, lmp.LmpHostConnectionReq())
+        except InvalidArgumentError:
+            # Nobody answers at that address
+            del self.classic_connections[command.bd_addr]
+            self.on_classic_connection_complete(
+                command.bd_addr, hci.HCI_ErrorCode.PAGE_TIMEOUT_ERROR
+            )
+            return None
 
         def on_response(future: asyncio.Future[int]) -> None:
             self.on_classic_connection_complete(command.bd_addr, future.result())
@@ -1482,7 +1490,17 @@ class Controller:
         '''
         self._send_hci_command_status(hci.HCI_ErrorCode.SUCCESS, command.op_code)
 
-        self.send_lmp_packet(command.bd_addr, lmp.LmpNameReq(0))
+        try:
+            self.send_lmp_packet(command.bd_addr, lmp.LmpNameReq(0))
+        except InvalidArgumentError:
+            # Nobody answers at that address
+            self.send_hci_packet(
+                hci.HCI_Remote_Name_Request_Complete_Event(
+                    status=hci.HCI_ErrorCode.PAGE_TIMEOUT_ERROR,
+                    bd_addr=command.bd_addr,
+                    remote_name=b'',
+                )
+            )
 
         return None
 
